@@ -498,3 +498,9 @@ B("dlin-adc_n-shorter-rhs", ["C14"],
   [("src/algorithms/div/knuth.rs", "            let carry = adc_n(&mut numerator[j..j + n], &divisor[..n], 0);\n            // Expect carry because we flip sign back to positive.\n            debug_assert_eq!(carry, 1);\n        }\n\n        // Store quotient in the unused bits of numerator",
     "            let carry = adc_n(&mut numerator[j..j + n], &divisor[..n - 1], 0);\n            // Expect carry because we flip sign back to positive.\n            debug_assert_eq!(carry, 1);\n        }\n\n        // Store quotient in the unused bits of numerator")],
   "adc_n requires")
+N("rlp-length-via-byte_len", ["C16"],
+  [("src/support/alloy_rlp.rs", "        let bits = self.bit_len();\n        if bits <= 7 {\n            1\n        } else {\n            let bytes = (bits + 7) / 8;\n            bytes + length_of_length(bytes)\n        }",
+    "        if self.bit_len() <= 7 {\n            1\n        } else {\n            let bytes = self.byte_len();\n            bytes + length_of_length(bytes)\n        }")])
+N("rlp-length-match-form", ["C16"],
+  [("src/support/fastrlp_03.rs", "        let bits = self.bit_len();\n        if bits <= 7 {\n            1\n        } else {\n            let bytes = (bits + 7) / 8;\n            bytes + length_of_length(bytes)\n        }",
+    "        match self.bit_len() {\n            0..=7 => 1,\n            bits => {\n                let bytes = (bits + 7) / 8;\n                bytes + length_of_length(bytes)\n            }\n        }")])
